@@ -866,3 +866,7 @@ def run(db, ctx):
     r176(db, ctx)
     r177(db, ctx)
     r178(db, ctx)
+    # __getitem__ of the binding returns the element the core holds at that index, negative indices counted from the end (seed C17-10)
+    from . import C18
+    common.shared_rule(db, ctx, C18.r181_182, 'R17.14', 'every __getitem__ uses the range-checked index, normalises a negative index by adding the __len__ quantity and tests it '
+                       'against the same quantity (shared with R18.1 / R18.2)', ['R18.1', 'R18.2'])
